@@ -198,6 +198,59 @@ impl Prop for C05 {
                 })
                 .collect();
         }
+        // flat collision parent (drawn from a side stream, so that every other seed keeps the scenario it had): one
+        // parent whose children - and some attributes - are a random permutation of four or more names of ONE group
+        // that all ask for the same identifier, including names that merely look like an already numbered identifier
+        // (item_3). Whatever hands out the numbers sees three or more clashes with look-alikes between them in every
+        // order of first appearance; a numbering that depends on the iteration order of a hashed set shows here.
+        let mut side = Rng::new(seed ^ 0xF1A7_C011_1DE5);
+        if !deep && side.pct(6) {
+            let groups: &[&[&str]] = &[
+                &["item", "Item", "ITEM", "item_3", "item_1", "item_2", "item_4", "iTEM"],
+                &["Foo", "foo", "FOO", "foo_1", "foo_2", "Foo_1", "fOO"],
+                &["a-b", "a_b", "a.b", "a_b_1", "a_b_2", "A-B", "a_b_3"],
+                &["type", "Type", "TYPE", "type_1", "r_type", "type_2", "r_type_1"],
+                &["text", "Text", "TEXT", "text_content", "text_1", "text_2", "text_content_1"],
+            ];
+            let g = *side.pick(groups);
+            let nd = side.range(1, 2);
+            let under_root = side.pct(50);
+            docs = (0..nd)
+                .map(|_| {
+                    let mut names: Vec<&str> = g.iter().copied().filter(|_| side.pct(80)).collect();
+                    while names.len() < 4 {
+                        let n = *side.pick(g);
+                        if !names.contains(&n) {
+                            names.push(n);
+                        }
+                    }
+                    // Fisher-Yates with the side stream
+                    for i in (1..names.len()).rev() {
+                        names.swap(i, side.below(i + 1));
+                    }
+                    let mut p = crate::dom::Elem::new(if under_root { "r" } else { "p" });
+                    for n in &names {
+                        if side.pct(20) && !n.contains('.') {
+                            p.attrs.push(crate::dom::Attr { name: n.to_string(), value: "v".into(), quote: b'"' });
+                        } else {
+                            let mut e = crate::dom::Elem::new(n);
+                            e.selfclose = side.pct(40);
+                            if !e.selfclose && side.pct(50) {
+                                e.kids.push(crate::dom::Node::Text("t".into()));
+                            }
+                            p.kids.push(crate::dom::Node::Elem(e));
+                        }
+                    }
+                    if under_root {
+                        crate::dom::Doc::plain(p)
+                    } else {
+                        let mut root = crate::dom::Elem::new("r");
+                        root.kids.push(crate::dom::Node::Elem(p));
+                        crate::dom::Doc::plain(root)
+                    }
+                })
+                .collect();
+        }
         if !deep && rng.pct(8) {
             // a stream that ends early, at a token boundary: the reader reports a plain end of input
             let i = rng.below(docs.len());
